@@ -118,9 +118,86 @@ class C13(Prop):
                     evs += pg.rand_events(rng, nhot, 1, malformed=0.1)
             out.append(Case("multi", "threads" if rng.random() < 0.3 else "local", [("pipe", [pipe])], evs,
                             {"kind": "hot-together"}))
+        # scheduler-using operators (suite `time`, field `twosubs`): two subscriptions of clones of ONE pipeline
+        # value alive together on one executor and one clock; FIFO executor only (`run`), so that each
+        # subscription's own tasks keep their order whether or not the other subscription exists.  No Lean model
+        # of two chain subscriptions: the oracle is the independence of the implementation from itself (solo runs)
+        from .. import timegen as tg
+        for i in range(n // 4):
+            src = rng.choice([["hot", "0"], ["hot", "0"], ["create", sx.N(1), sx.N(2)], ["iter", "1", "2", "3"]])
+            pipe = tg.chain(rng, src, ["delay", "observeon", "debounce", "throttle", "buftime", "bufcounttime",
+                                       "subscribeon", "delaysub"], rng.randint(1, 2), p_sync=0.3)
+            evs = [["sub"]]
+            k, second, done1, done2 = 1, False, False, False
+            for _ in range(rng.randint(4, 12)):
+                r = rng.random()
+                if not second and r < 0.3:
+                    evs.append(["sub2"]); second = True
+                elif r < 0.55 and src[0] == "hot":
+                    evs.append(["emit", "0", sx.N(k)]); k += 1
+                elif r < 0.6 and src[0] == "hot":
+                    evs.append(["emit", "0", rng.choice(["c", ["e", "3"]])])
+                elif r < 0.8:
+                    evs.append(["adv", str(rng.choice([1, 1, 2, 3, 5]))])
+                elif r < 0.93:
+                    evs.append(["run"])
+                elif r < 0.965 and not done1:
+                    evs.append(["unsub"]); done1 = True
+                elif second and not done2:
+                    evs.append(["unsub2"]); done2 = True
+            if not second:
+                evs.insert(rng.randint(1, len(evs)), ["sub2"])
+            evs += [["run"], ["adv", "6"], ["run"], ["adv", "6"], ["run"]]
+            out.append(Case("time", "threads" if rng.random() < 0.3 else "local",
+                            [("twosubs", ["1"]), ("pipe", [pipe])], evs, {"kind": "time-twosubs"}))
         return out
 
+    def compare_from(self, case):
+        # two chain subscriptions have no model: nothing is compared, the oracle decides
+        return len(case.events) if case.field("twosubs") else 0
+
+    @staticmethod
+    def _split_two(body):
+        """`o=N1 o2=N2;C live=…` -> ([N1], [N2, C])"""
+        from .. import timegen as tg
+        if body is None or not body.startswith("o="):
+            return None
+        head = body.split(" live=")[0]
+        a, _, b = head.partition(" o2=")
+        f = lambda t: [x for x in t.split(";") if x]
+        return f(a[2:]), f(b)
+
+    def time_oracle(self, case, lines):
+        from .. import timegen as tg
+        aux = case.meta.get("_aux")
+        if not aux or len(aux) != 2:
+            return None
+        for k in range(len(case.events)):
+            if lines.get(k) in ("PANIC", "HANG"):
+                return {"kind": "panic", "event": k, "detail": lines.get(k)}
+        for which, (drop, ren) in enumerate(((("sub2", "unsub2"), {}),
+                                             (("sub", "unsub"), {"sub2": "sub", "unsub2": "unsub"}))):
+            solo = aux[which]
+            pos = 0
+            for k, e in enumerate(case.events):
+                if e[0] in drop:
+                    continue
+                full = self._split_two(lines.get(k))
+                b = solo.get(pos)
+                pos += 1
+                if full is None or b is None or not b.startswith("o="):
+                    continue
+                alone, _ = tg.parse_suffix(b)
+                mine = full[which]
+                if mine != alone:
+                    return {"kind": "subscriptions-interfere", "event": k,
+                            "detail": f"subscription {which + 1} received {mine} in this event; alone on the same "
+                                      f"history (the other subscription removed) it receives {alone}"}
+        return None
+
     def oracle(self, case, lines, model_lines=None):
+        if case.suite == "time":
+            return self.time_oracle(case, lines)
         logs = {}
         nsubs = 0
         first_sub = None
@@ -192,6 +269,19 @@ class C13(Prop):
     def aux_cases(self, case):
         """For a hot pipeline with several subscriptions: the same history with only the j-th subscription
         (the events on the subjects all stay) — what that subscription would have seen ALONE."""
+        if case.suite == "time":
+            if not case.field("twosubs") or not any(e[0] == "sub2" for e in case.events):
+                return []
+            a = case.copy()
+            a.meta = {"kind": "solo"}
+            a.fields = [f for f in a.fields if f[0] != "twosubs"]
+            a.events = [e for e in case.events if e[0] not in ("sub2", "unsub2")]
+            b = case.copy()
+            b.meta = {"kind": "solo"}
+            b.fields = [f for f in b.fields if f[0] != "twosubs"]
+            b.events = [[{"sub2": "sub", "unsub2": "unsub"}.get(e[0], e[0])] + e[1:] for e in case.events
+                        if e[0] not in ("sub", "unsub")]
+            return [a, b]
         subs = [k for k, e in enumerate(case.events) if e == ["sub"]]
         if len(subs) < 2 or not self._is_hot(case) or any(e[0] == "sub" and len(e) > 1 for e in case.events):
             return []
@@ -205,6 +295,10 @@ class C13(Prop):
 
     def shrink_candidates(self, case):
         cands = []
+        if case.suite == "time":
+            from .. import timegen as tg
+            return [c for c in tg.time_shrink(case)
+                    if any(e[0] == "sub" for e in c.events) and any(e[0] == "sub2" for e in c.events)]
         for c in super().shrink_candidates(case):
             if sum(1 for e in c.events if e[0] == "sub") >= 1:
                 cands.append(c)
